@@ -586,6 +586,17 @@ func runC06(seed int64, n int, tier string, outDir string) (*Report, error) {
 		if !ok || !c06SameNl(got, want) {
 			violate("JSON round trip", in, c06Show(want), c06Show(got)+" via "+string(doc), idx)
 		}
+		// the value read belongs to the caller: decoding other documents afterwards (no longer than this one, so that
+		// any buffer kept by the decoder would be reused) must leave it as it is
+		if ok && len(doc) > 60 {
+			pad := strings.Repeat("Z", (len(doc)-50)/2)
+			for _, other := range []string{`{"type":"Note","name":"` + pad + pad + `"}`, `{"type":"Note","nameMap":{"en":"` + pad + `","fr":"` + pad + `"}}`, `{"type":"Note","summary":"` + pad + `","content":"` + pad + `"}`} {
+				_, _ = ap.UnmarshalJSON([]byte(other))
+			}
+			if again, ok2 := c06Read(back, pos); !ok2 || !c06SameNl(again, want) {
+				violate("JSON round trip, value kept while other documents are decoded", in, c06Show(want), c06Show(again)+" via "+string(doc), idx)
+			}
+		}
 		// independent reader of the written document
 		if len(want) == 1 {
 			_, s, ok := c06StdRead(doc, pos, false)
